@@ -13,6 +13,7 @@ its slot back when dropped.  DashMap: a mutex around an association list.
 Second harness (C19): the per-peer rate limiter (rate_limit.rs: RateLimitLayer::{new, layer}, RateLimit::{new, layer}, `impl Service for RateLimit`::call) on a
 MODEL of governor 0.6 over a virtual clock: a keyed GCRA (per key a theoretical arrival time; a cell is admitted iff now >= tat - (burst - 1) x period, and
 then tat = max(tat, now) + period; otherwise NotUntil(tat - (burst - 1) x period)); `until_key_ready` is a future that is ready when `check_key` admits."""
+import re
 import prelude as P
 
 NAME = 'enum_limits'
@@ -106,6 +107,44 @@ pub mod tokio {
             if ok { std::task::Poll::Ready(Ok(OwnedSemaphorePermit { sem: self.sem.take().unwrap(), n: 1 })) } else { std::task::Poll::Pending }
         }
     }
+    // tokio::sync::Mutex (for edits that serialise requests through one): a flag; `lock()` is ready when the flag is clear and sets it; the guard clears it in Drop
+    pub struct Mutex<T> { locked: std::sync::atomic::AtomicBool, v: std::cell::UnsafeCell<T> }
+    unsafe impl<T: Send> Sync for Mutex<T> {}
+    unsafe impl<T: Send> Send for Mutex<T> {}
+    impl<T: std::fmt::Debug> std::fmt::Debug for Mutex<T> { fn fmt(&self, f: &mut std::fmt::Formatter<'_>) -> std::fmt::Result { f.write_str("Mutex") } }
+    impl<T: Default> Default for Mutex<T> { fn default() -> Self { Mutex::new(T::default()) } }
+    #[derive(Debug)] pub struct TryLockError(());
+    pub struct MutexGuard<'a, T> { m: &'a Mutex<T> }
+    pub struct OwnedMutexGuard<T> { m: Arc<Mutex<T>> }
+    impl<T> Mutex<T> {
+        pub fn new(v: T) -> Self { Mutex { locked: std::sync::atomic::AtomicBool::new(false), v: std::cell::UnsafeCell::new(v) } }
+        fn take(&self) -> bool { !self.locked.swap(true, Ordering::SeqCst) }
+        pub fn lock(&self) -> Lock<'_, T> { Lock { m: self } }
+        pub fn try_lock(&self) -> Result<MutexGuard<'_, T>, TryLockError> { if self.take() { Ok(MutexGuard { m: self }) } else { Err(TryLockError(())) } }
+        pub fn lock_owned(self: Arc<Self>) -> LockOwned<T> { LockOwned { m: Some(self) } }
+        pub fn try_lock_owned(self: Arc<Self>) -> Result<OwnedMutexGuard<T>, TryLockError> { if self.take() { Ok(OwnedMutexGuard { m: self }) } else { Err(TryLockError(())) } }
+    }
+    pub struct Lock<'a, T> { m: &'a Mutex<T> }
+    impl<'a, T> std::future::Future for Lock<'a, T> {
+        type Output = MutexGuard<'a, T>;
+        fn poll(self: std::pin::Pin<&mut Self>, _cx: &mut std::task::Context<'_>) -> std::task::Poll<Self::Output> { if self.m.take() { std::task::Poll::Ready(MutexGuard { m: self.m }) } else { std::task::Poll::Pending } }
+    }
+    pub struct LockOwned<T> { m: Option<Arc<Mutex<T>>> }
+    impl<T> Unpin for LockOwned<T> {}
+    impl<T> std::future::Future for LockOwned<T> {
+        type Output = OwnedMutexGuard<T>;
+        fn poll(mut self: std::pin::Pin<&mut Self>, _cx: &mut std::task::Context<'_>) -> std::task::Poll<Self::Output> {
+            let ok = self.m.as_ref().map(|m| m.take()).unwrap_or(false);
+            if ok { std::task::Poll::Ready(OwnedMutexGuard { m: self.m.take().unwrap() }) } else { std::task::Poll::Pending }
+        }
+    }
+    impl<'a, T> std::ops::Deref for MutexGuard<'a, T> { type Target = T; fn deref(&self) -> &T { unsafe { &*self.m.v.get() } } }
+    impl<'a, T> std::ops::DerefMut for MutexGuard<'a, T> { fn deref_mut(&mut self) -> &mut T { unsafe { &mut *self.m.v.get() } } }
+    impl<T> std::ops::Deref for OwnedMutexGuard<T> { type Target = T; fn deref(&self) -> &T { unsafe { &*self.m.v.get() } } }
+    impl<T> std::ops::DerefMut for OwnedMutexGuard<T> { fn deref_mut(&mut self) -> &mut T { unsafe { &mut *self.m.v.get() } } }
+    unsafe impl<'a, T: Send> Send for MutexGuard<'a, T> {}
+    impl<'a, T> Drop for MutexGuard<'a, T> { fn drop(&mut self) { self.m.locked.store(false, Ordering::SeqCst); } }
+    impl<T> Drop for OwnedMutexGuard<T> { fn drop(&mut self) { self.m.locked.store(false, Ordering::SeqCst); } }
     impl<'a> SemaphorePermit<'a> { pub fn forget(mut self) { self.n = 0; } }
     impl OwnedSemaphorePermit { pub fn forget(mut self) { self.n = 0; } }
     impl<'a> Drop for SemaphorePermit<'a> { fn drop(&mut self) { self.sem.permits.fetch_add(self.n, Ordering::SeqCst); } }
@@ -452,19 +491,32 @@ pub mod harness {
 '''
 
 
+def tokio_sync_names(repo, rel):
+    """names the source file imports from tokio::sync at its top level (`use tokio::sync::Mutex;`, `use tokio::sync::{Mutex, Semaphore};`)"""
+    import os
+    src = open(os.path.join(repo, rel)).read()
+    names = []
+    for m in re.finditer(r'(?m)^use\s+tokio::sync::(\{[^}]*\}|\w+)\s*;', src):
+        g = m.group(1)
+        names += [x.strip() for x in g.strip('{}').split(',') if x.strip()] if g.startswith('{') else [g]
+    return [n for n in names if re.fullmatch(r'\w+', n)]
+
+
 def build(ctx):
     C = ctx
+    # the inflight-limit items live at the top level of this file, next to std's Mutex: a tokio::sync name the source file imports is spelled out
+    ILRW = [dict(rule='X5', pattern=r'(?<![:\w])%s\b(?!\s*::\s*new\b\s*\(\s*Vec)' % n_, repl='tokio::sync::%s' % n_, regex=True, optional=True) for n_ in tokio_sync_names(C.repo, IL) if n_ in ('Mutex', 'MutexGuard', 'OwnedMutexGuard')]
     t = PRELUDE
     t += C.item(RESP, 'enum StatusCode', extra_derive=['Debug'])
-    t += C.item(IL, 'enum WaitMode')
-    t += C.item(IL, 'struct InflightLimitLayer')
-    t += 'impl InflightLimitLayer {\n' + C.fn(IL, 'impl InflightLimitLayer :: fn new', 'InflightLimitLayer::new', ['C18'], probe=False) + '}\n'
+    t += C.item(IL, 'enum WaitMode', rewrites=ILRW)
+    t += C.item(IL, 'struct InflightLimitLayer', rewrites=ILRW)
+    t += 'impl InflightLimitLayer {\n' + C.fn(IL, 'impl InflightLimitLayer :: fn new', 'InflightLimitLayer::new', ['C18'], rewrites=ILRW, probe=False) + '}\n'
     t += 'impl<S> Layer<S> for InflightLimitLayer {\n    type Service = InflightLimit<S>;\n'
-    t += C.fn(IL, 'impl <S> Layer<S> for InflightLimitLayer :: fn layer', 'InflightLimitLayer::layer', ['C18'], probe=False, pub=False) + '}\n'
-    t += C.item(IL, 'struct InflightLimit')
+    t += C.fn(IL, 'impl <S> Layer<S> for InflightLimitLayer :: fn layer', 'InflightLimitLayer::layer', ['C18'], rewrites=ILRW, probe=False, pub=False) + '}\n'
+    t += C.item(IL, 'struct InflightLimit', rewrites=ILRW)
     t += 'impl<S> InflightLimit<S> {\n'
     for f in ('new', 'layer'):
-        t += C.fn(IL, 'impl <S> InflightLimit<S> :: fn %s' % f, 'InflightLimit::%s' % f, ['C18'], probe=False)
+        t += C.fn(IL, 'impl <S> InflightLimit<S> :: fn %s' % f, 'InflightLimit::%s' % f, ['C18'], rewrites=ILRW, probe=False)
     t += '}\n'
     t += '''impl<ResBody, ReqBody, S> Service<Request<ReqBody>> for InflightLimit<S>
 where
@@ -476,11 +528,12 @@ where
     type Error = S::Error;
     type Future = BoxFuture<'static, Result<Self::Response, Self::Error>>;
 '''
-    t += C.fn(IL, 'impl <ResBody, ReqBody, S> Service<Request<ReqBody>> for InflightLimit<S> .* :: fn poll_ready', 'InflightLimit::poll_ready', ['C18'], probe=False, pub=False)
-    t += C.fn(IL, 'impl <ResBody, ReqBody, S> Service<Request<ReqBody>> for InflightLimit<S> .* :: fn call', 'InflightLimit::call', ['C18'], probe=False, pub=False)
+    t += C.fn(IL, 'impl <ResBody, ReqBody, S> Service<Request<ReqBody>> for InflightLimit<S> .* :: fn poll_ready', 'InflightLimit::poll_ready', ['C18'], rewrites=ILRW, probe=False, pub=False)
+    t += C.fn(IL, 'impl <ResBody, ReqBody, S> Service<Request<ReqBody>> for InflightLimit<S> .* :: fn call', 'InflightLimit::call', ['C18'], rewrites=ILRW, probe=False, pub=False)
     t += '}\n'
     # ---- rate limiter (its own module: it has a WaitMode of its own) ----
-    t += 'pub mod rate_limit {\n    use super::*;\n    use governor::{clock::{Clock, DefaultClock}, middleware::NoOpMiddleware, state::keyed::DefaultKeyedStateStore, RateLimiter};\n    pub mod anemo { pub use super::super::anemo::*; pub use super::super::PeerId; }\n'
+    rl_names = tokio_sync_names(C.repo, RL)
+    t += 'pub mod rate_limit {\n    use super::*;\n' + ('    use tokio::sync::{%s};   // the source file\'s own imports from tokio::sync (they shadow the glob import)\n' % ', '.join(rl_names) if rl_names else '') + '    use governor::{clock::{Clock, DefaultClock}, middleware::NoOpMiddleware, state::keyed::DefaultKeyedStateStore, RateLimiter};\n    pub mod anemo { pub use super::super::anemo::*; pub use super::super::PeerId; }\n'
     t += C.item(RL, 'type SharedRateLimiter')
     t += C.item(RL, 'enum WaitMode')
     t += C.item(RL, 'const WAIT_NANOS_HEADER')
